@@ -329,24 +329,31 @@ def Op.watermark (o : Op) (sender : String) (wm : Int) : Op × List Req :=
   let o1 := { o with reg := { o.reg with ups := u.1, wm := u.2 } }
   Op.fireLoop u.2 (o.reg.store.db.length + 1) o1
 
-/-- what reaches the operator's event loop from its upstream runners -/
+/-- what reaches the operator: events from its upstream runners, and a (re)deployment by the job -/
 inductive OpEv where
   | keyed (key : Bytes) (timers : List Int)
   | wmark (sender : String) (wm : Int)
+  | redeploy (store : Store) (ids : List String)   -- `HandleDeploy` on the same operator: fresh DB, timer store and registry
 deriving Repr
+
+/-- `HandleDeploy`: `timerRegistry = NewTimerRegistry(NewTimerStore(db, ...), req.SourceRunnerIds)`; the event batcher
+(created in `Start`) and whatever it still holds are kept -/
+def Op.redeploy (o : Op) (store : Store) (ids : List String) : Op := { o with reg := Registry.new store ids }
 
 def Op.step (o : Op) : OpEv → Op × List Req
   | .keyed k ts => o.keyed k ts
   | .wmark s v => o.watermark s v
+  | .redeploy st ids => (o.redeploy st ids, [])
 
 def Op.runState (o : Op) : List OpEv → Op
   | [] => o
   | e :: es => Op.runState (o.step e).1 es
 
-/-- the watermark messages among the events, in arrival order -/
-def wmsgs : List OpEv → List (String × Int)
-  | [] => []
-  | .keyed _ _ :: es => wmsgs es
-  | .wmark s v :: es => (s, v) :: wmsgs es
+/-- the current deployment's runner ids and the watermark messages received since it was deployed, in arrival order -/
+def epochOf : List String × List (String × Int) → List OpEv → List String × List (String × Int)
+  | s, [] => s
+  | s, .keyed _ _ :: es => epochOf s es
+  | (ids, ms), .wmark s v :: es => epochOf (ids, ms ++ [(s, v)]) es
+  | _, .redeploy _ ids :: es => epochOf (ids, []) es
 
 end Rxn.Timers
